@@ -176,6 +176,57 @@ def body_mixed(rep, case):
         judge(kind, f, one, resp, f"C08/{kind}/after-other-replies")
 
 
+async def api_history(case):
+    dev = await env.device()
+    out = []
+    clients = {}
+    try:
+        for q in case["queries"]:
+            kind = q["reply"]
+            op = API_OP[kind]
+            typ = ops.api_type(op)
+            if typ not in clients:
+                clients[typ] = ops.Client(dev, typ, "a1b2c3", "18")
+                await clients[typ].connect()
+            cl = clients[typ]
+            good = encode(kind, q["fields"], q["salt"])
+            data = good[:q["cut"]] if q.get("cut") else good
+            cl.conn.script.clear()
+            cl.conn.script.extend([{"data": replies.login("0a0b0c0d", 44, q["salt"])}, {"data": data}])
+            out.append(await cl.call(op, {}))
+        return out
+    finally:
+        for cl in clients.values():
+            await cl.close()
+
+
+def body_api_history(rep, case):
+    """Several state queries on one connection per API type; some replies are cut short (those queries may raise
+    RuntimeError); every well-formed reply, also right after a bad one, must decode exactly."""
+    res = net.run(api_history(case))
+    rep.tick("api-history", key=case, nontrivial=any(q.get("cut") for q in case["queries"][:-1]), sample=case,
+             labels=("has-malformed-reply",) if any(q.get("cut") for q in case["queries"]) else ())
+    for i, (q, (status, r)) in enumerate(zip(case["queries"], res)):
+        one = {"queries": case["queries"][:i + 1]}
+        kind = q["reply"]
+        if q.get("cut"):
+            continue       # C09's business
+        after_bad = any(p.get("cut") for p in case["queries"][:i])
+        sig = f"C08/{kind}" + ("/after-malformed-reply" if after_bad else "/later-query-on-connection" if i else "")
+        if status != "ok":
+            raise Violation(f"{sig}/well-formed-reply-not-parsed/{type(r).__name__ if r is not None else status}", one,
+                            "a response object", f"{status}: {r!r}")
+        judge(kind, q["fields"], one, r, sig)
+
+
+def strat_api_history():
+    def q(k):
+        return st.builds(lambda f, salt, cut: dict({"reply": k, "fields": f, "salt": salt}, **({"cut": cut} if cut else {})),
+                         FIELDS[k], st.integers(1, 250), st.one_of(st.just(0), st.just(0), st.integers(1, 99)))
+    one = st.sampled_from(["state1", "shutter", "thermostat"]).flatmap(q)
+    return st.lists(one, min_size=2, max_size=6).map(lambda qs: {"queries": qs})
+
+
 def strat_mixed():
     one = st.sampled_from(["state1", "shutter", "thermostat", "login"]).flatmap(
         lambda k: st.builds(lambda f, salt: {"reply": k, "fields": f, "salt": salt}, FIELDS[k], st.integers(1, 250)))
@@ -183,8 +234,9 @@ def strat_mixed():
 
 
 # -- strategies -------------------------------------------------------------------------------
-secs = st.one_of(st.integers(0, 86399), st.sampled_from([0, 1, 59, 60, 255, 256, 3599, 3600, 65535, 65536, 86399]))
-power = st.one_of(st.integers(0, 65535), st.sampled_from([0, 1, 109, 110, 111, 219, 220, 255, 256, 2600, 65535]))
+# 61694 = 0xF0FE and 65264 = 0xFEF0: field values whose bytes spell the frame magic / terminator
+secs = st.one_of(st.integers(0, 86399), st.sampled_from([0, 1, 59, 60, 255, 256, 3599, 3600, 61694, 65264, 65535, 65536, 86399]))
+power = st.one_of(st.integers(0, 65535), st.sampled_from([0, 1, 109, 110, 111, 219, 220, 255, 256, 2600, 61694, 65264, 65535]))
 REMOTE_ALPHA = "ABCDEFGHIJKLMNOPQRSTUVWXYZ0123456789abcdefghijklmnopqrstuvwxyz_-"
 
 FIELDS = {
@@ -193,7 +245,8 @@ FIELDS = {
     "thermostat": st.fixed_dictionaries({
         "on": st.booleans(), "mode": st.integers(1, 5), "fan": st.integers(0, 3), "swing": st.integers(0, 1),
         "temp_tenths": st.one_of(st.integers(0, 65535), st.sampled_from([0, 255, 256, 281, 65535])), "target": st.integers(0, 255),
-        "remote_id": st.text(REMOTE_ALPHA, min_size=1, max_size=8)}),
+        "remote_id": st.one_of(st.text(REMOTE_ALPHA, min_size=1, max_size=8), st.text(REMOTE_ALPHA, min_size=1, max_size=8),
+                               st.text(REMOTE_ALPHA + "ÉÖאבג", min_size=1, max_size=8).filter(lambda t: len(t.encode("utf-8")) <= 8))}),
     "login": st.fixed_dictionaries({"session": gen.sessions, "length": gen.login_lens}),
 }
 
@@ -211,6 +264,7 @@ def subchecks(tier):
     big = tier == "thorough"
     subs = [Sub(f"api/{k}", body_api, strategy=strat(k, True), n=20_000 if big else 2000, shards=8 if big else 2)
             for k in ("state1", "shutter", "thermostat")]
+    subs.append(Sub("api-history", body_api_history, strategy=strat_api_history, n=30_000 if big else 700, shards=8 if big else 2))
     subs.append(Sub("mixed", body_mixed, strategy=strat_mixed, n=100_000 if big else 1500, shards=8 if big else 2))
     subs += [Sub(f"direct/{k}", body_direct, strategy=strat(k, False), n=200_000 if big else 1500, shards=8 if big else 1)
              for k in ("state1", "shutter", "thermostat", "login")]
